@@ -3,6 +3,7 @@
 # Applies a seeded change to /repo, runs the given checks, always restores /repo.
 V="$(cd "$(dirname "${BASH_SOURCE[0]}")/.." && pwd)"
 patch="$1"; shift
+export VERIF_WATCHDOG_S="${VERIF_WATCHDOG_S:-900}"
 if [ -n "$(git -C /repo status --porcelain --untracked-files=no)" ]; then echo "/repo is not clean"; exit 3; fi
 git -C /repo apply --check "$patch" || { echo "patch does not apply"; exit 3; }
 git -C /repo apply "$patch"
